@@ -41,8 +41,8 @@ Qed.
 Lemma add_block_char w a b : 0 <= w -> add_block w a b = trunc w (a + b).
 Proof.
   (* unfolds the generated AddCarryIn / Constant here: the carry-in wire is the constant 0 *)
-  intros Hw. unfold add_block, AddCarryIn_propagate, Constant_propagate. cbv zeta. rewrite !Wire_put_trunc.
-  try change (Wire_put 1 0) with 0. f_equal; lia.
+  intros Hw. unfold add_block, AddCarryIn_propagate, Constant_propagate. norm_masks.
+  try change (trunc 1 0) with 0. finish_arith.
 Qed.
 
 Lemma fxadd_spec F a b : wf F -> fxadd F F F a b = Some (spec_add (fwidth F) a b).
@@ -143,7 +143,7 @@ Proof.
   destruct (wf_width _ Ha) as [Hwa _], (wf_width _ Hb) as [Hwb _], (wf_width _ Hr) as [Hwr _].
   unfold fxmul. cbv zeta. destruct (Z.ltb_spec (ffrac af + ffrac bf - ffrac rf) 0) as [Hc|_]; [lia|]. f_equal.
   set (low := ffrac af + ffrac bf - ffrac rf) in *.
-  rewrite Range_window by lia. rewrite !SignExtend_char by lia. rewrite Mul_char.
+  rewrite Range_window by lia. rewrite !SignExtend_char by lia. rewrite Mul_char by lia.
   rewrite trunc_mul_l, trunc_mul_r by lia. rewrite !trunc_mod by lia.
   unfold spec_mul, fxint. apply window_div; lia.
 Qed.
@@ -157,7 +157,7 @@ Proof.
   destruct (wf_width _ Ha) as [Hwa _], (wf_width _ Hb) as [Hwb _], (wf_width _ Hr) as [Hwr _].
   unfold fxmul. cbv zeta. destruct (Z.ltb_spec (ffrac af + ffrac bf - ffrac rf) 0) as [Hc|_]; [lia|]. f_equal.
   set (low := ffrac af + ffrac bf - ffrac rf) in *.
-  rewrite Range_window by lia. rewrite !SignExtend_char by lia. rewrite Mul_char.
+  rewrite Range_window by lia. rewrite !SignExtend_char by lia. rewrite Mul_char by lia.
   rewrite trunc_mul_l, trunc_mul_r by lia.
   pose proof (sgn_range (fwidth af) a Hwa Ea) as Ra. pose proof (sgn_range (fwidth bf) b Hwb Eb) as Rb.
   set (sa := sgn (fwidth af) a) in *. set (sb := sgn (fwidth bf) b) in *.
@@ -179,7 +179,7 @@ Proof.
   destruct (wf_width _ Ha) as [Hwa _], (wf_width _ Hb) as [Hwb _], (wf_width _ Hr) as [Hwr _].
   unfold fxmul. cbv zeta. destruct (Z.ltb_spec (ffrac af + ffrac bf - ffrac rf) 0) as [Hc|_]; [lia|].
   set (low := ffrac af + ffrac bf - ffrac rf) in *.
-  rewrite Range_window by lia. rewrite !SignExtend_char by lia. rewrite Mul_char.
+  rewrite Range_window by lia. rewrite !SignExtend_char by lia. rewrite Mul_char by lia.
   rewrite trunc_mul_l, trunc_mul_r by lia.
   pose proof (sgn_range (fwidth af) a Hwa Ea) as Ra. pose proof (sgn_range (fwidth bf) b Hwb Eb) as Rb.
   unfold spec_mul, fxint. fold low.
@@ -244,7 +244,7 @@ Proof.
   assert (Hx : 0 <= x <= 1) by (apply Hl; left; reflexivity).
   assert (Hrest : bits rest) by (intros y Hy; apply Hl; right; exact Hy).
   destruct rest as [|y rest].
-  - cbn [and_block allones forallb]. rewrite Buf_char. rewrite trunc_small by (change (2 ^ 1) with 2; lia).
+  - cbn [and_block allones forallb]. rewrite Buf_char by lia. rewrite trunc_small by (change (2 ^ 1) with 2; lia).
     assert (Hc : x = 0 \/ x = 1) by lia. destruct Hc as [-> | ->]; reflexivity.
   - unfold and_block. rewrite and_ladder_char by assumption. reflexivity.
 Qed.
